@@ -69,21 +69,22 @@ CHECKS = {
          "to_scientific_notation, to_plain_string (scale >= 0), {:e}, {:E} and Display (every notation it can choose, any thresholds and padding limit) is read back by the model of the real parser "
          "(= the grammar, by C05_parse_eq_spec) as the identical (int, scale) pair; Display of an integer written out with its zeros reads back with scale 0 and the same value (the exemption the "
          "statement names) - theorems C04_scientific_roundtrip, C04_plain_roundtrip, C04_exp_roundtrip, C04_display_roundtrip, C04_display_value, C04_display_identical_of_nonneg_scale, built on the "
-         "canonical-numeral lemma specParse_canonical. Engineering notation, the reference-view entry points and the Display length bound are established per generated input (grammar oracle + "
+         "canonical-numeral lemma specParse_canonical; C04_engineering_value (engineering notation reads back with the same value); C04_display_length (Display length <= digits + both thresholds + 30 for every scale). The reference-view entry points are tied by the correspondence (grammar oracle + "
          "real parser). One known finding (plain notation with negative scale) and one fixed defect (scientific zero).",
-         "PARTIAL only for engineering notation and the length bound (per generated input). Trusted: Lean kernel, the character-level model's tie to the code (text-exact differential), extractor, "
+         "All clauses of the statement are theorems about the character-level model; that the reference-view entry points run the same formatter is tied to the code by the correspondence. Trusted: Lean kernel, the character-level model's tie to the code (text-exact differential), extractor, "
          "harness/driver, pad_integral model.",
          "Lean 4 proof (round trip of scientific/plain/{:e}/{:E}/Display for all decimals) + text-exact correspondence of the formatting model with the code", "DESIGN.md §5 C04"),
  "C16": ("Character-level Lean model of precision formatting ({:.N}, {:.Ne}, {:.NE}: round_ascii_digits with carry past nines, integer+fraction / no-integer layouts, zero right-padding with "
          "FMT_MAX_INTEGER_PADDING, exponent adjustment) and of pad_integral (sign, '+', width, fill, alignment, '0'), compared text-exactly with the real code over every flag combination. "
-         "Kernel-checked for ALL inputs: C16_round_ascii_digits - the formatter's own ASCII-digit rounding (digit pair through the translated round_pair, guarded trailing-zeros flag, carry past "
-         "trailing nines, all-nines overflow, removed-digit count) returns exactly the declarative rounding Spec.roundNat that the numeric routines were proved to compute in C06/C07, for every "
-         "mode, sign, number and cut position; pad_integral without flags adds only the sign. The layout around the rounded digits (point, padding zeros, over-padding fallback) is judged per "
-         "generated input: the unflagged text is read by the grammar specification and must equal roundToScale with exactly N fraction digits (N+1 significant digits for {:.Ne}); flags must equal "
-         "pad_integral applied to the implementation's own unflagged text.",
-         "PARTIAL: the rounding core is a theorem; the placement of the point and the zeros (fmtIntFrac, fmtNoInt, zeroRightPad, exponential layout) is decided per generated input by the Lean oracle. "
+         "Kernel-checked for ALL inputs: C16_round_ascii_digits (the formatter's own ASCII-digit rounding - digit pair through the translated round_pair, guarded trailing-zeros flag, carry past "
+         "trailing nines, all-nines overflow, removed-digit count - returns exactly the declarative rounding Spec.roundNat of C06/C07); C16_display_precision (for every storable decimal, every N and "
+         "every configuration the text of {:.N} is read back by the model of the real parser as exactly d.with_scale_round(N, mode): those digits, scale N, hence exactly N digits after the point, "
+         "zero-padded when fewer exist - or, when the integer padding would exceed the limit, the exponent-keeping text denotes d exactly); C16_exp_precision ({:.Ne}/{:.NE} read back with the value "
+         "of the decimal rounded to N+1 significant digits); C16_flags_only_pad (for every combination of width, fill, alignment, 0 and + the text is the unflagged numeral preceded by the sign and "
+         "surrounded only by fill characters or zeros). The correspondence checks every flag combination text-exactly against the real Formatter::pad_integral.",
+         "PARTIAL only in that the pad_integral MODEL (std's formatter) and the digit COUNT of the {:.Ne} mantissa are tied to the code by the text-exact correspondence rather than by a theorem. "
          "Trusted: Lean kernel, extractor (round_pair, needs_trailing_zeros), harness/driver, pad_integral model.",
-         "Lean 4 proof (ASCII-digit rounding = declarative rounding for all inputs) + text-exact correspondence + rounding oracle for the layout", "DESIGN.md §5 C16"),
+         "Lean 4 proof ({:.N} = with_scale_round and {:.Ne} = precision rounding through the character-level formatter, for all inputs) + text-exact correspondence", "DESIGN.md §5 C16"),
  "C17": ("Lean model of the serde glue: Serialize = the Display model of C04, Deserialize of strings and of arbitrary-precision JSON numbers = the parser model of C05 on the literal text (digit for "
          "digit), the JSON-number adapters = serde_json's number grammar (recogniser) + the zero special case + the configured scale limit; integer/float tokens = exact conversions. Kernel-checked for "
          "ALL storable decimals: C17_string_roundtrip (from_str(Display d) is an equal decimal, and the identical digits and scale whenever the scale is non-negative), C17_jsonnum_roundtrip (the "
@@ -103,10 +104,11 @@ CHECKS = {
          "the translated table) and entry point. Kernel-checked for all inputs: C11_icbrt_floor (the bisection is the floor cube root), C11_decisions (the comparisons the rounding makes - tail zero, "
          "below / at the half-way point - are exactly those of the REAL cube root against the kept value and the half-way point), C11_code_rounding (the inline round_pair with its guarded "
          "trailing-zeros flag is the declarative roundUpM on that tail), C11_scale_third (total scale a multiple of three, result scale exactly a third), C11_mirror / C11_ctx_mirror (cbrt(-x) under m = "
-         "-cbrt(x) under the mirrored mode), zero case. Every sampled result of the real code is additionally judged by an exact certificate (cubes of the rounding boundaries, Floor/Ceiling on the "
+         "-cbrt(x) under the mirrored mode), C11_implCbrt_spec (the assembled statement), zero case. Every sampled result of the real code is additionally judged by an exact certificate (cubes of the rounding boundaries, Floor/Ceiling on the "
          "signed value) and compared exactly with the model.",
-         "PARTIAL: the pieces are proved for all inputs; their assembly into one statement about the trimmed p-digit result (trim = digits(root) - p >= 1 from the 3(p+4)-digit shift) is checked per "
-         "sampled input by the certificate oracle. Trusted: nth_root(3) = floor cube root as modelled (bisection; proved to be the floor root), Lean kernel, extractor, harness/driver.",
+         "C11_implCbrt_spec assembles them: for every non-zero magnitude, scale, precision, mode and sign the result is the floor root cut after p digits (at least four digits are dropped, "
+         "icbrt_digits) incremented exactly when roundUpM says so on the virtual tail, at one third of the shifted scale. What remains informal is only the reading of those integer comparisons as "
+         "'the real cube root rounded' (no real numbers in the development). Trusted: nth_root(3) = floor cube root as modelled (bisection; proved to be the floor root), Lean kernel, extractor, harness/driver.",
          "Lean 4 proof (floor root, true-root decisions, inline rounding = declarative rounding, scale, sign mirror) + exact rounding certificate oracle + differential correspondence", "DESIGN.md §5 C11"),
  "C12": ("PARTIAL BY NATURE. Kernel-checked for all inputs: the Newton step is exact and squares the residual (1 - x r' = (1 - x r)^2, r' <= 1/x), negation commutes with the reciprocal under the "
          "mirrored mode (C12_neg_mirror), sign copying, zero/one shortcuts. NOT proved (stated as the proposition C12_inverse_full): termination for every input/guess and the one-unit bound on exit "
@@ -115,7 +117,9 @@ CHECKS = {
          "Trusted: f64 initial guess (hook), Lean kernel, extractor, harness/driver. The headline bound is established per sampled input by an exact certificate, not for all inputs.",
          "Lean 4 structural theorems + exact certificate oracle + differential correspondence; partial proof", "DESIGN.md §5 C12"),
  "C13": ("PARTIAL BY NATURE. Lean model of exp (series loop with exact powers/factorials, impl_division per term - whose correct rounding is the theorem of C08 -, convergence test on the value "
-         "trimmed to precision+5 digits, e^-x = 1/e^x). Kernel-checked: exp(0) = 1. NOT proved: that the stopping test implies the tail is negligible, hence the one-unit bound for every x. "
+         "trimmed to precision+5 digits, e^-x = 1/e^x). Kernel-checked for ALL arguments: C13_positive (whatever the routine returns is strictly positive - loop invariant over term, factorial, partial sum; "
+         "positivity of impl_division, of the reciprocal and of the with_prec trimming - under the scalar condition EstOK on the f64 digit estimate, which C18 checks on the real code for every bit length), "
+         "C13_negative_is_reciprocal, exp(0) = 1. NOT proved: that the stopping test implies the tail is negligible, hence the one-unit bound for every x. "
          "That gap is closed per sampled input: every result of the real code is judged against a rational enclosure of e^x computed in outward-rounded interval arithmetic (scaling and squaring, "
          "Taylor partial sums with remainder bound) - strictly positive, configured digit count, within one unit of the last digit - and compared exactly with the model; ordered pairs check the "
          "two-ulp order property.",
